@@ -160,7 +160,7 @@ func (r *vfC02PskRun) run() {
 			}
 			var n int
 			var err error
-			vfc02.Guard("pskConn.Read", func() { n, err = rc.Read(buf[:b]) })
+			vfc02.Guard("pskConn.Read", func() { n, err = rc.Read(buf[:b:b]) })
 			r.log = append(r.log, map[string]any{"op": "read", "rel": rel, "real": b, "avail": avail, "n": n, "err": fmt.Sprint(err)})
 			r.res.Case(fmt.Sprintf("read/%s/%v/%v", rel, op.B("nonce"), op.B("dry")))
 			if !nonceRead && wire.Served >= vfC02NonceLen {
